@@ -177,6 +177,9 @@ func (c *hctx) stmt(s ast.Stmt, k func() term) term {
 		if !ok {
 			c.lostAt(v, "expression statement")
 		}
+		if as := c.sortStmt(v); as != nil {
+			return c.assign(as, k) // slices.SortFunc(xs, lit): xs = the sorted list (fn_heap_ctor.go)
+		}
 		var pre []hbind
 		c.call(call, &pre, nil) // results are dropped
 		return wrap(pre, k())
@@ -658,6 +661,9 @@ func (c *hctx) storePrep(l ast.Expr, st *ast.AssignStmt, pre *[]hbind) func(val 
 			}
 			*pre = append(*pre, hbind{pat: x.name, e: rec, isLet: true, effect: true})
 		}
+	}
+	if st := c.indexStore(l, pre); st != nil {
+		return st
 	}
 	c.lostAt(l, "assignment target %s", src(l))
 	return nil
